@@ -150,8 +150,7 @@ def r05_1(run):
                     found = True
                     rel = t.row('relaying', 'got_data')
                     for n in gp.nodes_containing(c):
-                        esc = gp.escapes(n, lambda x: any(is_call_to(a, 'self.got_data') for a in node_asts(x)) or
-                                         (x.kind == 'test' and mentions(x.ast, 'self._data')), exits=gp.normal_exits())
+                        esc = _redispatch_escapes(gp, n)
                         if esc or rel is None or not any(o in deliver for o in rel['outputs']):
                             good = False
             if found and good:
@@ -181,8 +180,7 @@ def r05_1(run):
                         continue
                     found = True
                     for n in gp.nodes_containing(c):
-                        esc = gp.escapes(n, lambda x: any(is_call_to(a, 'self.got_data') for a in node_asts(x)) or
-                                         (x.kind == 'test' and mentions(x.ast, 'self._data')), exits=gp.normal_exits())
+                        esc = _redispatch_escapes(gp, n)
                         if esc or nxt is None or not nxt['outputs']:
                             good = False
             ok = found and good
@@ -216,6 +214,47 @@ def _len_guard(t):
             and t.left.args and dotted(t.left.args[0]) == 'self._data':
         return t.ops[0], t.comparators[0]
     return None
+
+
+def _empty_label(t):
+    """label of the edge of test atom `t` on which self._data is known to be empty (None: not such a test)."""
+    if dotted(t) == 'self._data':
+        return 'F'
+    if isinstance(t, ast.Call) and dotted(t.func) == 'len' and t.args and dotted(t.args[0]) == 'self._data':
+        return 'F'
+    lg = _len_guard(t)
+    if lg is not None:
+        op, b = lg
+        c = const(b)
+        if c is not NOCONST and isinstance(c, int):
+            if (isinstance(op, ast.Gt) and c == 0) or (isinstance(op, ast.GtE) and c == 1) or (isinstance(op, ast.NotEq) and c == 0):
+                return 'F'
+            if (isinstance(op, ast.Eq) and c == 0) or (isinstance(op, ast.Lt) and c == 1) or (isinstance(op, ast.LtE) and c == 0):
+                return 'T'
+    if isinstance(t, ast.Compare) and len(t.ops) == 1 and dotted(t.left) == 'self._data' and const(t.comparators[0]) == b'':
+        if isinstance(t.ops[0], ast.NotEq):
+            return 'F'
+        if isinstance(t.ops[0], ast.Eq):
+            return 'T'
+    return None
+
+
+def _redispatch_escapes(g, n):
+    """normal exits reachable after node n with buffered bytes left and no re-dispatch (self.got_data()) on the way.
+    Edges on which self._data is known empty are not followed; a test on self._data of an unknown form stops the search."""
+    skip = set()
+    for x in g.real_nodes():
+        if x.kind == 'test':
+            lab = _empty_label(x.ast)
+            if lab is not None:
+                skip.add((x.id, lab))
+    def stop(x):
+        if any(is_call_to(a, 'self.got_data') for a in node_asts(x)):
+            return True
+        return x.kind == 'test' and mentions(x.ast, 'self._data') and _empty_label(x.ast) is None
+    starts = [s for lab, s in n.succ if (n.id, lab) not in skip and lab != 'exc']
+    r = g.reachable(starts, avoid=stop, skip_edges=skip, follow_exc=False)
+    return [e for e in g.normal_exits() if e in r]
 
 
 def _ge(bound, need):
@@ -590,11 +629,15 @@ def r05_8(run):
             run.paths_enumerated += 1
             if p_.exit == 'raise':
                 continue
-            consumed = any(n.kind == 'stmt' and isinstance(n.ast, ast.Assign) and 'self._data' in assigned_targets(n.ast) for n, _ in p_.steps)
-            if not consumed:
-                continue
+            consumed = sum(1 for n, _ in p_.steps if n.kind == 'stmt' and isinstance(n.ast, ast.Assign) and 'self._data' in assigned_targets(n.ast))
             ins = [m for n, _ in p_.steps if n.kind in ('stmt', 'test') for a in node_asts(n)
                    if isinstance(a, ast.Call) and (dotted(a.func) or '').startswith('self.') and (m := (dotted(a.func) or '').split('.')[-1]) in SUCCESS_INPUTS]
+            if ins:
+                run.ob('R05.8', u, u.node, 'a reply that raises a success input has been taken out of the buffer exactly once', consumed == 1, slot='input-consumes:%s' % pname,
+                       message='%s raises %s with the reply consumed %d times on %s: the reply header is handed to the application as data '
+                               '(or application bytes are dropped)' % (pname, ins, consumed, p_.describe(6)))
+            if not consumed:
+                continue
             run.ob('R05.8', u, u.node, 'a consumed reply raises exactly one success input', len(ins) == 1, slot='one-input:%s' % pname,
                    message='%s consumes the reply and then raises %s on %s: the attempt is never resolved (or resolved twice)' % (pname, ins or 'no input', p_.describe(6)))
     run.floor('R05.8', 'layout obligations', k, 10)
@@ -730,12 +773,16 @@ MUTANTS = [
     M('domain-port-offset', F, "        port = struct.unpack('H', self._data[5 + addrlen:5 + addrlen + 2])[0]", "        port = struct.unpack('H', self._data[6 + addrlen:5 + addrlen + 2])[0]", ['R05.8']),
     M('bad-version-silent', F, "        if version != 5:\n            self.reply_error(SocksError(\n                \"Expected version 5, got {}\".format(version)))\n            return\n\n        if reply != self.SUCCEEDED:", "        if version != 5:\n            return\n\n        if reply != self.SUCCEEDED:", ['R05.8']),
     M('no-reparse-after-method-reply', F, "                if self._data:\n                    self.got_data()\n            else:", "            else:", ['R05.1']),
+    M('reparse-guard-negated', F, "                if self._data:\n                    self.got_data()\n            else:", "                if not self._data:\n                    self.got_data()\n            else:", ['R05.1']),
+    M('reparse-call-dropped', F, "                if self._data:\n                    self.got_data()\n            else:", "                if self._data:\n                    pass\n            else:", ['R05.1']),
     M('version-reply-clears-buffer', F, "            self._data = self._data[2:]\n", "            self._data = b''\n", ['R05.2']),
     M('reply-length-cap', F, "        if len(self._data) < 8:\n            return\n        msg = self._data[:4]", "        if len(self._data) < 8:\n            return\n        if len(self._data) > 262:\n            self.reply_error(SocksError('too long'))\n            return\n        msg = self._data[:4]", ['R05.2']),
     M('relay-in-sent_request', F, "    sent_request.upon(\n        got_data,\n        enter=sent_request,\n        outputs=[_parse_request_reply],\n    )", "    sent_request.upon(\n        got_data,\n        enter=sent_request,\n        outputs=[_parse_request_reply, _relay_data],\n    )", ['R05.1']),
     M('make-connection-on-error', F, "    sent_request.upon(\n        reply_error,\n        enter=abort,\n        outputs=[_disconnect],\n    )", "    sent_request.upon(\n        reply_error,\n        enter=relaying,\n        outputs=[_make_connection],\n    )", ['R05.1']),
     M('no-flush-on-enter', F, "        self._when_done.fire(sender)\n        # anything that arrived in the same segment as the reply\n        # already belongs to the application\n        self._relay_pending()\n", "        self._when_done.fire(sender)\n", ['R05.1']),
     M('reply-error-no-disconnect', F, "    sent_request.upon(\n        reply_error,\n        enter=abort,\n        outputs=[_disconnect],\n    )", "    sent_request.upon(\n        reply_error,\n        enter=abort,\n        outputs=[],\n    )", ['R05.1']),
+    M('reply-left-in-buffer', F, "            port = struct.unpack('H', self._data[8:10])[0]\n            self._data = self._data[10:]\n", "            port = struct.unpack('H', self._data[8:10])[0]\n", ['R05.8']),
+    M('domain-reply-left-in-buffer', F, "        self._data = self._data[5 + addrlen + 2:]\n", "", ['R05.8']),
     M('consume-more-than-checked', F, "        if len(self._data) >= 10:\n            addr = inet_ntoa(self._data[4:8])", "        if len(self._data) >= 9:\n            addr = inet_ntoa(self._data[4:8])", ['R05.2']),
     M('input-before-consume', F, "            self._data = self._data[2:]\n            (version, method) = struct.unpack('BB', reply)\n            if version == 5 and method in [0x00, 0x02]:\n                self.version_reply(method)", "            (version, method) = struct.unpack('BB', reply)\n            if version == 5 and method in [0x00, 0x02]:\n                self.version_reply(method)\n                self._data = self._data[2:]\n                return\n            self._data = self._data[2:]\n            if False:\n                pass", ['R05.2']),
     M('domain-short-check', F, "        if len(self._data) < (5 + addrlen + 2):\n            return", "        if len(self._data) < (5 + addrlen):\n            return", ['R05.2']),
@@ -753,6 +800,8 @@ MUTANTS = [
     M('relay-drops-first-byte', F, "            d = self._data\n            self._data = b''\n", "            d = self._data[1:]\n            self._data = b''\n", ['R05.7']),
 ]
 TWINS = [
+    M('reparse-len-gt-0', F, "                if self._data:\n                    self.got_data()\n            else:", "                if len(self._data) > 0:\n                    self.got_data()\n            else:"),
+    M('reparse-unconditional', F, "                if self._data:\n                    self.got_data()\n            else:", "                self.got_data()\n            else:"),
     M('len-le-7', F, "        if len(self._data) < 8:\n            return\n        msg = self._data[:4]", "        if len(self._data) <= 7:\n            return\n        msg = self._data[:4]"),
     M('early-return-len', F, "        if len(self._data) >= 22:\n            addr = self._data[4:20]\n            port = struct.unpack('H', self._data[20:22])[0]\n            self._data = self._data[22:]\n            if self._req_type == 'CONNECT':\n                self.reply_ipv6(addr, port)\n            else:\n                self.reply_domain_name(inet_ntop(AF_INET6, addr))",
       "        if len(self._data) < 22:\n            return\n        addr = self._data[4:20]\n        port = struct.unpack('H', self._data[20:22])[0]\n        self._data = self._data[22:]\n        if self._req_type != 'CONNECT':\n            self.reply_domain_name(inet_ntop(AF_INET6, addr))\n        else:\n            self.reply_ipv6(addr, port)"),
